@@ -1,4 +1,5 @@
 import IpcModel.Lemmas.BoundsProof
+import IpcModel.GenUnsafe
 import IpcModel.Props.C01
 import IpcModel.Props.C05
 /-!
@@ -88,5 +89,42 @@ as after ENOBUFS downsizing) exposes bytes the kernel never wrote -/
 example : Bounds.followWith (fun _ _ ep => ep) 4608 13000 ⟨13000, 4568, 4568⟩ [100] true = .viol .lenExposesUnwritten := by decide
 /-! sensitivity: without the 8-byte header the subtraction underflows -/
 example : Bounds.recv 4608 5 13000 [] true = .viol .headerUnderflow := by decide
+
+/-! ### inventory of `unsafe` (regenerated): every site is accounted for
+
+`platform/unix/mod.rs` has 38 `unsafe` blocks / functions in 36 functions (plus `unsafe impl Send / Sync` for the region type).
+They fall into:
+
+* **system calls on descriptors and plain values, no buffer of ours involved** — `channel`, the `drop`s (close / munmap / free
+  of what the object owns: C11_shape), `get_system_sendbuf_size`, `connect`, `select` (close of a member), `new`, `accept`,
+  `make_socket_lingering`, `clone` (dup), `from_fd`, `create_shmem`, `is_socket`, `memfd_create`, `UnixCmsg::recv` (poll /
+  fcntl / recvmsg on the prepared header);
+* **`sockaddr_un` path copy** — `new_sockaddr_un`: `strncpy` of at most `len − 1` bytes after the `strlen ≥ len` refusal
+  (`Gen.shape_pathChecked`, C08_shape);
+* **send side** — `send` (the two calls pass slices `&data[..end]`, `&data[pos..end]`: `C18_slices`), `send_first_fragment`
+  (control buffer of `CMSG_SPACE(4·n)` bytes, `copy_nonoverlapping` of `n` descriptors at `CMSG_DATA`: `C18_cmsg_writer`;
+  the two `iovec`s are the 8-byte header and the slice), `send_followup_fragment` (pointer + length of one slice);
+* **receive side** — `recv` (first buffer, `set_len` after the first packet, `cmsg_fds.add(index)` for
+  `index < channel_length`: `C18_cmsg_reader`; the reassembly loop's `set_len` / pointer / length: `C18_recv_bounds`,
+  `C18_protocol`), `UnixCmsg::new` (control buffer of `CMSG_SPACE(4·MAX_FDS_IN_CMSG)`), `new_msghdr` (zeroed header),
+  `cmsg_len`, `CMSG_DATA` (header-sized offset into that buffer), `UnixCmsg::drop` (free);
+* **regions** — `map_file`, `deref`, `from_raw_parts`, `from_byte`, `from_bytes` (mapping length = object length = slice
+  length; null for length 0: `C18_shm_pairing`, `C18_shm_zero`, C05).
+
+`C18_unsafe_inventory` pins the list and the number of pointer-level operations of each kind, so that a new, moved or
+removed site breaks this obligation and has to be classified again. -/
+
+/-- **C18_unsafe_inventory** — the functions containing `unsafe` and the pointer-level operations of the Unix transport are exactly
+the ones the bounds theorems of this file (and C05 / C08 / C11) speak about. -/
+theorem C18_unsafe_inventory :
+    Gen.unsafeSites = [("new_sockaddr_un", 1), ("channel", 1), ("drop", 1), ("drop", 1), ("get_system_sendbuf_size", 1), ("send", 2),
+      ("send_first_fragment", 1), ("send_followup_fragment", 1), ("connect", 1), ("drop", 1), ("select", 1), ("drop", 1), ("drop", 1),
+      ("new", 1), ("accept", 1), ("make_socket_lingering", 1), ("map_file", 1), ("drop", 1), ("drop", 1), ("clone", 1), ("deref", 1),
+      ("from_raw_parts", 1), ("from_fd", 1), ("from_byte", 1), ("from_bytes", 1), ("recv", 2), ("new_msghdr", 1), ("create_shmem", 1),
+      ("create_shmem", 1), ("drop", 1), ("new", 1), ("recv", 1), ("cmsg_len", 1), ("is_socket", 1), ("memfd_create", 1), ("CMSG_DATA", 1)] ∧
+    Gen.unsafeOutsideFns = 2 ∧
+    Gen.ptrOps = [("set_len", 4), ("as_mut_ptr", 7), ("as_ptr", 9), ("copy_nonoverlapping", 2), ("from_raw_parts", 2), ("offset/add", 2),
+      ("malloc", 2), ("free", 2), ("mmap", 1), ("munmap", 1), ("write_bytes/memset", 0), ("strncpy", 1), ("zeroed", 2), ("transmute", 0),
+      ("get_unchecked", 0)] := ⟨rfl, rfl, rfl⟩
 
 end C18
